@@ -9,8 +9,22 @@ changes the premises of these theorems.
 
 Quantifier: every scan, text region (nested to any depth), line and word; no bound on sizes or values.
 `textHierarchy d`: no table region anywhere below (the property's "text-hierarchy documents").
+
+Second half (`C07_export_tree`, `C07_content_carried`, `C07_ids_carried`, `C07_roundtrip`, …): a bare
+region / line / word is exported as the scan `asScan d` that holds just it (for a line inside the dummy
+`PageXMLTextRegion(coords=line.coords)`, for a word inside the dummy region and dummy line); the export is
+the pure tree `scanTree s` exactly when `expScan s` holds (ids `None` or `str`, serialisable custom
+attributes, …); and for the documents of the property (`rtDoc d`, decidable, evaluated by the driver on
+every generated case) the C01 parser model on the xmltodict value of the exported tree returns
+`contentScan fname s`.  Serialising with lxml and re-reading with expat is the identity on the abstract
+tree up to the namespace declarations `docX` adds on the root (contract, DESIGN §3.6; the harness
+compares `toDict (docX tree)` with `xmltodict.parse` of the REAL string and `parseScan` of it with the
+REAL `parse_pagexml_file` on every case).
 -/
-import PagexmlModel.Lemmas.C07
+import PagexmlModel.Lemmas.C07Trip
+import PagexmlModel.Lemmas.C07Custom
+import PagexmlModel.Props.C01
+import PagexmlModel.Props.C11
 
 namespace Pagexml.C07
 open Pagexml.C06
@@ -73,6 +87,193 @@ theorem C07_wellformed (d : Doc) (x : Xml) (h : exportDoc d = .ok x) :
 theorem C07_structure (d : Doc) (x : Xml) (h : exportDoc d = .ok x) : validTree x = true :=
   (export_spec d x h).2.2
 
+/-! ### the second half: what the exported tree is, and what the parser makes of it -/
+
+private theorem textHierarchy_asScan (d : Doc) (hd : textHierarchy d = true) : ∃ s, asScan d = some s := by
+  cases d <;> simp [textHierarchy, asScan] at hd ⊢
+
+/-- **C07_export_tree**: the export of a text-hierarchy document, in closed form.  `asScan d` is the scan
+    whose Page the export writes (the scan; the scan holding just the region; the dummy region around the
+    line; the dummy region and dummy line around the word).  The export succeeds exactly when `expScan`
+    holds (every id is `None` or a `str`, the custom attributes serialise, `str()` of the confidences and
+    truthy orientations is modelled, metadata fields and reading-order references are strings, the image
+    size converts with `int()`), and then it returns exactly the pure tree `scanTree s`. -/
+theorem C07_export_tree (d : Doc) (s : Scan) (hd : textHierarchy d = true) (hs : asScan d = some s) (x : Xml) :
+    exportDoc d = .ok x ↔ expScan s = true ∧ x = scanTree s := by
+  unfold exportDoc
+  rw [C07_export_ok d hd]
+  exact export_iff d s hs x
+
+/-- **C07_content_carried**: whatever is exported for a text-hierarchy document, reading the exported
+    tree back — for every TextRegion / TextLine / Word element at any depth its `id` attribute, the points
+    of its Coords and Baseline children, the Unicode text and `conf` of its TextEquiv, its `custom`
+    attribute, and the nesting (`readNodes`) — gives the content of the document's regions, lines and words
+    (`regionNodes`: ids, point strings, baselines, texts, `str(conf)`, `make_custom_string(custom)`), one for
+    one and in document order; and the RegionRefIndexed entries read from the Page are the entries of the
+    document's reading order, in order. -/
+theorem C07_content_carried (d : Doc) (hd : textHierarchy d = true) (x : Xml) (h : exportDoc d = .ok x) :
+    ∃ s page, asScan d = some s ∧ pageOf x = some page ∧
+      readNodes "TextRegion" page.children = regionNodes s.regions ∧
+      readingOrderAt page = s.ro.map (fun e => (strOfInt e.1, strT e.2)) := by
+  obtain ⟨s, hs⟩ := textHierarchy_asScan d hd
+  obtain ⟨_, rfl⟩ := (C07_export_tree d s hd hs x).1 h
+  exact ⟨s, pageTree s, hs, pageOf_scanTree s, readNodes_pageTree s, readingOrderAt_pageTree s⟩
+
+/-- **C07_ids_carried** (the second half of the planned `C07_structure`): the `id` attributes of the
+    TextRegion / TextLine / Word elements of the exported Page, in document order (an element, then its lines
+    each followed by its words, then its sub-regions; `none` = no attribute) are the ids of the document's
+    regions, lines and words in the same order (`none` = the element has no id): every element that
+    corresponds to a document element with an id carries that id, and no other element has one. -/
+theorem C07_ids_carried (d : Doc) (hd : textHierarchy d = true) (x : Xml) (h : exportDoc d = .ok x) :
+    ∃ s page, asScan d = some s ∧ pageOf x = some page ∧
+      idsL (readNodes "TextRegion" page.children) = regionsIds s.regions := by
+  obtain ⟨s, page, hs, hp, hn, _⟩ := C07_content_carried d hd x h
+  exact ⟨s, page, hs, hp, by rw [hn, idsL_regionNodes]⟩
+
+/-- the bare documents: what `asScan` is -/
+theorem C07_bare_wrappers (r : Region) (l : Line) (w : Word) :
+    asScan (.region r) = some (wrapScan r.h [r]) ∧
+    asScan (.line l) = some (wrapScan l.h [dummyRegionOf l.h.coords [l]]) ∧
+    asScan (.word w) = some (wrapScan w.h [dummyRegionOf w.h.coords [dummyLineOf w.h.coords [w]]]) :=
+  ⟨rfl, rfl, rfl⟩
+
+private theorem rtDoc_textHierarchy (d : Doc) (s : Scan) (hs : asScan d = some s) (h : rtScan s = true) :
+    textHierarchy d = true := by
+  obtain ⟨ht, hr⟩ := rtScan_textHierarchy s h
+  cases d with
+  | scan s' => simp [asScan] at hs; subst hs; simp [textHierarchy, ht, hr]
+  | region r =>
+    simp [asScan] at hs; subst hs
+    simpa [textHierarchy, wrapScan, noTablesL] using hr
+  | line l => rfl
+  | word w => rfl
+  | column c => simp [asScan] at hs
+  | page p => simp [asScan] at hs
+
+/-- **C07_roundtrip**: for every document of the property — `rtDoc d`: a scan, text region (nested to any
+    depth), line or word; every region, line and word has coordinates (PAGE requires them, the parser raises
+    KeyError on a line or word without); lines with or without text, baseline, confidence, words; ids are
+    strings or absent; confidences and truthy orientations are float literals; custom attributes that
+    serialise; a reading order with string references; metadata fields that are strings; no table regions —
+    the export succeeds, and the parser (the C01 model `parseScan`: `parse_pagexml_json` with the
+    constructors), applied to the xmltodict value of the exported tree, returns without raising exactly
+    `contentScan fname s` — for every hull routine (it is never called: every region has its Coords) and
+    every file name.  `C07_same_content` spells out what that scan is. -/
+theorem C07_roundtrip (hull : List C03.Pt → Res (List C03.Pt)) (fname : String) (d : Doc) (s : Scan)
+    (hs : asScan d = some s) (h : rtDoc d = true) :
+    ∃ x, exportDoc d = .ok x ∧
+      Scan.parseScan hull fname (X.toDictDoc (docX x)) = .ok (contentScan fname s) := by
+  have hrt : rtScan s = true := by simpa [rtDoc, hs] using h
+  refine ⟨scanTree s, ?_, parseScan_scanTree hull fname s hrt⟩
+  exact (C07_export_tree d s (rtDoc_textHierarchy d s hs hrt) hs _).2 ⟨rtScan_exp s hrt, rfl⟩
+
+/-- **C07_same_content** (`SameContent d s'`): the re-parsed scan `contentScan fname s` has
+    * the scan id the export wrote as `imageFilename` (`metadata['scan_id']`; the file name if there is none),
+    * the image size of the document (`scan_width` / `scan_height`, else the extent of its coordinates) as
+      its coordinates box — `None` when a side is 0 (the parser reads 0 as "unknown"),
+    * the document's regions — ids, orientation, polygon (`boxOf` of the same points), lines (id, text as
+      xmltodict strips it, polygon, baseline, confidence literal, words with id / text / polygon / confidence)
+      and sub-regions, nested as in the document — in the order the constructor of the re-parsed scan gives
+      them (`orderRegions`, C05: by the exported reading order when it covers every region, else document
+      order),
+    * the document's reading order (`contentRO`: the same index → region id entries) and the `id` / `caption`
+      attributes of the group; no tables. -/
+theorem C07_same_content (fname : String) (s : Scan) :
+    let sc := contentScan fname s
+    sc.id = (imageFilename s.h.md).getD fname ∧
+    sc.coords = (if sizedB s then some (C01.boxOf (Scan.pageBox ((widthOf s.h).getD 0) ((heightOf s.h).getD 0))) else none) ∧
+    sc.regions = (C05.orderRegions C01.Region.id (contentRO s.ro) (contentRegions s.regions)).1 ∧
+    sc.readingOrder = (C05.orderRegions C01.Region.id (contentRO s.ro) (contentRegions s.regions)).2 ∧
+    sc.roAttrs = contentRoAttrs s.ro s.roa ∧ sc.tables = [] :=
+  ⟨rfl, rfl, rfl, rfl, rfl, rfl⟩
+
+/-- … region by region: same id, polygon, lines and sub-regions (one for one, in document order); the
+    region-level text is not exported, a falsy orientation (`None`, `0.0`) is not written -/
+theorem C07_same_region (h : Hdr) (text : Option String) (o : PyVal) (ro : RO) (roa : PyVal) (lines : List Line)
+    (regions : List Region) (tables : List Table) :
+    contentRegion ⟨h, text, o, ro, roa, lines, regions, tables⟩
+      = .mk (idStr h.id) (orientOf o) (h.coords.map C01.boxOf) .none (lines.map contentLine) (contentRegions regions) := by
+  simp [contentRegion, boxOpt]
+
+/-- … line by line: same id, polygon, baseline, words; the text / confidence as the parser reads them -/
+theorem C07_same_line (l : Line) :
+    (contentLine l).id = idStr l.h.id ∧ (contentLine l).coords = l.h.coords.map C01.boxOf ∧
+    (contentLine l).baseline = l.baseline.map C01.boxOf ∧ (contentLine l).words = l.words.map contentWord ∧
+    (contentLine l).conf = lineConf l.text l.conf ∧
+    (contentLine l).text = (if hasTE l.text l.conf then C01.txtOf (uniVal l.text) else .none) :=
+  ⟨rfl, rfl, rfl, rfl, rfl, rfl⟩
+
+/-- text without leading / trailing white space that is not empty comes back unchanged (xmltodict strips
+    the edges: known finding C01:text-edge-whitespace), for lines and for words -/
+theorem C07_text_exact (t : String) (hne : t ≠ "")
+    (hh : ∀ c, t.toList.head? = some c → X.isPySpace c = false)
+    (hl : ∀ c, t.toList.getLast? = some c → X.isPySpace c = false) (l : Line) (w : Word)
+    (hlt : l.text = some t) (hwt : w.text = some t) :
+    (contentLine l).text = .str t ∧ (contentWord w).text = some t := by
+  have := C01.C01_text_exact t hne hh hl
+  simp [contentLine, contentWord, hlt, hwt, hasTE, uniVal, this, C01.txtOf]
+
+/-- a confidence that is a non-empty float literal comes back as that literal -/
+theorem C07_conf_exact (l : Line) (c : String) (hc : confStr l.conf = some c) (hne : c ≠ "") :
+    (contentLine l).conf = some c := by
+  have hte : hasTE l.text l.conf = true := by
+    cases ht : l.text <;> cases hcf : l.conf <;> simp_all [hasTE, confStr]
+  simp [contentLine, lineConf, hte, hc, hne]
+
+/-- **C07_custom_entry**: the dict the parser receives for every Word / TextLine / TextRegion element of the
+    export (at any depth: these are the trees `wordTree` / `lineTree` / `regionTree` the export is made of)
+    has as its `@custom` entry — the string `parse_custom_metadata` reads — exactly
+    `make_custom_string(element.custom)` (`customStr`; `custom=""` when there are no custom attributes). -/
+theorem C07_custom_entry :
+    (∀ w : Word, rtWord w = true → ∃ d, X.toDict (toX (wordTree w)) = .dict d ∧
+      X.lookup "@custom" d = (customStr w.h.md).map X.PyVal.str) ∧
+    (∀ l : Line, rtLine l = true → ∃ d, X.toDict (toX (lineTree l)) = .dict d ∧
+      X.lookup "@custom" d = (customStr l.h.md).map X.PyVal.str) ∧
+    (∀ (h : Hdr) (text : Option String) (o : PyVal) (ro : RO) (roa : PyVal) (lines : List Line) (regions : List Region),
+      rtRegion ⟨h, text, o, ro, roa, lines, regions, []⟩ = true →
+      ∃ d, X.toDict (toX (regionTree ⟨h, text, o, ro, roa, lines, regions, []⟩)) = .dict d ∧
+        X.lookup "@custom" d = (customStr h.md).map X.PyVal.str) := by
+  refine ⟨fun w hw => ?_, fun l hl => ?_, fun h text o ro roa lines regions hr => ?_⟩
+  · simp only [rtWord, Bool.and_eq_true] at hw
+    cases hco : w.h.coords with
+    | none => simp [hco, ptsOk] at hw
+    | some ps => exact ⟨_, toDict_wordTree w ps hco, custom_wordEntries w ps⟩
+  · obtain ⟨⟨ps, hco, _⟩, _⟩ := rtLine_parts l hl
+    exact ⟨_, toDict_lineTree l ps hco, custom_lineEntries l ps⟩
+  · simp only [rtRegion, Bool.and_eq_true] at hr
+    cases hco : h.coords with
+    | none => simp [hco, ptsOk] at hr
+    | some ps => exact ⟨_, toDict_regionTree h text o ro roa lines regions ps hco, custom_regionEntries h o lines regions ps⟩
+
+/-- **C07_custom_roundtrip**: an element whose custom attributes are the entries `es` — as dicts: the
+    pairs of each tag in order, then `tag_name` (`entryVal`, the shape `parse_custom_attributes` produces) —
+    that are well formed (`C11.EntryOK`: what every parse returns, `C11.parse_ok`; also met by attributes
+    built through the API with word-character tag names, clean keys / values and integer `offset` / `length`
+    / `index`) is exported with a `custom` string that `parse_custom_attributes` (the C11 model, for every
+    lawful character class) parses back to exactly `es`.  `C07.customString` (make_custom_string over JSON
+    values) and `C11.makeCustomString` (over typed entries) are the same function there
+    (`customString_entries`); the round trip itself is the C11 development (`C11_reserialise_stable`'s
+    proof, for well-formed entries). -/
+theorem C07_custom_roundtrip (cc : C11.CharClass) (hcc : C11.Lawful cc) (md : Meta) (es : List C11.Entry)
+    (hmd : customOf md = .list (es.map entryVal)) (hok : ∀ e ∈ es, C11.EntryOK cc e) :
+    ∃ c, customStr md = some c ∧ C11.parseCustomAttributes cc c.toList = .ok es :=
+  custom_roundtrip cc hcc md es hmd hok
+
+/-- no custom attributes: `custom=""`, which parses to no attributes -/
+theorem C07_custom_none (cc : C11.CharClass) (md : Meta) (h : alookup (.s "custom_attributes") md = none) :
+    customStr md = some "" ∧ C11.parseCustomAttributes cc "".toList = .ok [] := by
+  refine ⟨by simp [customStr, customOf, h, customString], rfl⟩
+
+/-- a reading order (a Python dict: pairwise different indices) comes back entry for entry, in order -/
+theorem C07_reading_order_exact (s : Scan) (hnd : (s.ro.map (·.1)).Nodup) :
+    contentRO s.ro = s.ro.map (fun e => (e.1, strT e.2)) :=
+  contentRO_exact s.ro hnd
+
+/-- without a reading order the regions come back in document order -/
+theorem C07_roundtrip_no_order (fname : String) (s : Scan) (h : s.ro = []) :
+    (contentScan fname s).regions = contentRegions s.regions ∧ (contentScan fname s).readingOrder = some [] := by
+  simp [contentScan, h, contentRO, C05.roOfEntries, C05.orderRegions]
+
 /-! ### non-vacuity: a scan with a reading order, nested regions, custom attributes, a line with
     baseline / text / confidence / a word, a line without anything — exported by evaluation -/
 
@@ -106,6 +307,47 @@ example : exportDocG true (.line l1) = exportDocG false (.line l1) := C07_export
 /-- the content the parser reads from the exported tree is the content of the document -/
 example : (exportDoc (.scan s1)).toOption.map (fun x => (readNodes "TextRegion" ((pageOf x).getD default).children).length) = some 2 := by
   decide
+/-- the documents of the second half: in the quantifier, exportable, and their wrappers -/
+example : rtDoc (.scan s1) = true := by decide
+example : rtDoc (.line l1) = true ∧ rtDoc (.word w1) = true ∧ rtDoc (.region r1) = true := by decide
+example : ∃ x, exportDoc (.scan s1) = .ok x ∧
+    Scan.parseScan (fun pts => .ok pts) "f.xml" (X.toDictDoc (docX x)) = .ok (contentScan "f.xml" s1) :=
+  C07_roundtrip _ "f.xml" (.scan s1) s1 rfl (by decide)
+example : ((contentScan "f.xml" s1).id, (contentRegions s1.regions).map (·.id), contentRO s1.ro, contentRoAttrs s1.ro s1.roa)
+    = ("s1.jpg", [some "r0", some "r1"], [(10, "r0"), (12, "r1")], [("caption", "c")]) := by decide
+example : ∃ s page, asScan (.line l1) = some s ∧ pageOf (scanTree s) = some page ∧
+    idsL (readNodes "TextRegion" page.children) = [none, some "l1", some "w1"] :=
+  ⟨_, _, rfl, pageOf_scanTree _, by rw [readNodes_pageTree, idsL_regionNodes]; decide⟩
+/-- custom attributes as the parser types them: written and parsed back -/
+private def exEntries : List C11.Entry :=
+  [⟨"structure".toList, [("type".toList, .str "paragraph".toList)]⟩,
+   ⟨"textStyle".toList, [("offset".toList, .int 0), ("length".toList, .int 2), ("bold".toList, .str "true".toList)]⟩]
+example : ∃ c, customStr [(.s "custom_attributes", .list (exEntries.map entryVal))] = some c ∧
+    C11.parseCustomAttributes C11.asciiCC c.toList = .ok exEntries :=
+  C07_custom_roundtrip C11.asciiCC C11.asciiCC_lawful _ exEntries rfl
+    (C11.parse_ok (s := "structure {type:paragraph;} textStyle {offset:0; length:2; bold:true;}".toList) (by decide))
+example : customStr [(.s "custom_attributes", .list (exEntries.map entryVal))]
+    = some "structure {type:paragraph;}  textStyle {offset:0; length:2; bold:true;} " := by decide
+example : rtWord w1 = true ∧ rtLine l1 = true := by decide
+example : contentRO s1.ro = [(10, "r0"), (12, "r1")] := C07_reading_order_exact s1 (by decide)
+example : exportDoc (.scan s1) = .ok (scanTree s1) := (C07_export_tree (.scan s1) s1 (by decide) rfl _).2 ⟨by decide, rfl⟩
+example (x : Xml) (h : exportDoc (.word w1) = .ok x) : ∃ s page, asScan (.word w1) = some s ∧ pageOf x = some page ∧
+    idsL (readNodes "TextRegion" page.children) = regionsIds s.regions := C07_ids_carried _ (by decide) x h
+example (x : Xml) (h : exportDoc (.scan s1) = .ok x) : ∃ s page, asScan (.scan s1) = some s ∧ pageOf x = some page ∧
+    readNodes "TextRegion" page.children = regionNodes s.regions ∧
+    readingOrderAt page = s.ro.map (fun e => (strOfInt e.1, strT e.2)) := C07_content_carried _ (by decide) x h
+example : regionsIds s1.regions = [some "r0", some "r1", some "r2", some "l1", some "w1", none] := by decide
+example : (contentLine l1).text = .str "ab <&> cd" ∧ (contentWord { w1 with text := some "ab <&> cd" }).text = some "ab <&> cd" :=
+  C07_text_exact "ab <&> cd" (by decide) (by intro c h; simp at h; subst h; decide) (by intro c h; simp at h; subst h; decide)
+    l1 _ rfl rfl
+example : (contentLine l1).conf = some "0.9" := C07_conf_exact l1 "0.9" (by decide) (by decide)
+example : customStr l2.h.md = some "" := (C07_custom_none C11.asciiCC l2.h.md rfl).1
+example : (contentScan "f.xml" { s1 with ro := [] }).regions = contentRegions s1.regions :=
+  (C07_roundtrip_no_order "f.xml" { s1 with ro := [] } rfl).1
+example : ∃ d, X.toDict (toX (lineTree l1)) = .dict d ∧ X.lookup "@custom" d = some (.str "readingOrder {index:0;} ") := by
+  obtain ⟨d, h1, h2⟩ := C07_custom_entry.2.1 l1 (by decide)
+  have hc : customStr l1.h.md = some "readingOrder {index:0;} " := by decide
+  exact ⟨d, h1, by rw [h2, hc]; rfl⟩
 /-- a table region with coordinates is the guard that does fire (outside the text hierarchy) -/
 private def t1 : Table := { h := ⟨.str "t", baseTypes "table_region", [], some (P 0 0)⟩, orientation := .none, rows := [] }
 example : (match exportDoc (.scan { s1 with tables := [t1] }) with | .error .TypeError => true | _ => false) = true := by decide
